@@ -341,6 +341,8 @@ def family(name, r):
         return face_only(r)
     if name == "tiny_cut":
         return tiny_cut(r)
+    if name == "ranged_small":
+        return ranged_small(r)
     if name == "unbounded":
         return unbounded(r)
     if name == "special":
@@ -385,13 +387,41 @@ def build_cmds(lp, h="h0", how="load"):
         return load_cmd(lp, h)
     sense = "max" if lp["max"] else "min"
     lines = ["create %s prob %s" % (h, sense)]
-    for j in range(lp["n"]):
-        lines.append("new_col %s %s %s %s %s" % (h, qstr(lp["obj"][j]), qstr(lp["lo"][j]), qstr(lp["up"][j]), lp["cname"][j]))
-    for i in range(lp["m"]):
-        e = lp["A"][i]
+    m, n = lp["m"], lp["n"]
+
+    def addrow(i, upto):
+        e = [(j, v) for j, v in lp["A"][i] if j < upto]
         lines.append("add_ranged_row %s %d %s %s %s %s %s" % (h, len(e), " ".join("%d %s" % (j, qstr(v)) for j, v in e),
                                                              qstr(lp["rhs"][i]), lp["sense"][i], qstr(lp["range"][i]), lp["rname"][i]))
+
+    def addcol(j, rows):
+        e = [(i, v) for i in rows for jj, v in lp["A"][i] if jj == j]
+        if e:
+            lines.append("add_col %s %d %s %s %s %s %s" % (h, len(e), " ".join("%d %s" % (i, qstr(v)) for i, v in e), qstr(lp["obj"][j]), qstr(lp["lo"][j]), qstr(lp["up"][j]), lp["cname"][j]))
+        else:
+            lines.append("new_col %s %s %s %s %s" % (h, qstr(lp["obj"][j]), qstr(lp["lo"][j]), qstr(lp["up"][j]), lp["cname"][j]))
+    if how == "create":                       # columns first, then rows: internal column k is structural k
+        for j in range(n):
+            addcol(j, [])
+        for i in range(m):
+            addrow(i, n)
+    elif how == "rowsfirst":                  # rows first (their logicals get the low internal indices), then columns with their entries
+        for i in range(m):
+            addrow(i, 0)
+        for j in range(n):
+            addcol(j, range(m))
+    else:                                     # "interleave": half of the rows, all columns, the remaining rows
+        h1 = (m + 1) // 2
+        for i in range(h1):
+            addrow(i, 0)
+        for j in range(n):
+            addcol(j, range(h1))
+        for i in range(h1, m):
+            addrow(i, n)
     return lines
+
+
+BUILD_MODES = ["load", "create", "rowsfirst", "interleave"]
 
 
 def witness_event(lp, w, h="h0"):
@@ -402,3 +432,32 @@ def witness_event(lp, w, h="h0"):
     if w["kind"] == "unb":
         return dict(call="witness", h=h, kind="unb", x=[qstr(v) for v in w["x"]], d=[qstr(v) for v in w["d"]])
     return None
+
+
+def ranged_small(r):
+    """small LPs in which most rows are ranged (non-degenerate ranges) and the columns mix [0,inf), free, boxed and upper-only bounds:
+    every non-basic position has two sides somewhere (bases with rows and columns at upper)"""
+    m, n = r.randint(1, 3), r.randint(1, 3)
+    lp = _mk(m, n, r.random() < .5)
+    for j in range(n):
+        k = r.random()
+        if k < .35:
+            lp["lo"][j], lp["up"][j] = F(0), INF
+        elif k < .5:
+            lp["lo"][j], lp["up"][j] = NINF, INF
+        elif k < .65:
+            lp["lo"][j], lp["up"][j] = NINF, F(r.randint(0, 5))
+        else:
+            lo = F(r.randint(-4, 2)); lp["lo"][j], lp["up"][j] = lo, lo + F(r.randint(1, 6))
+        lp["obj"][j] = F(r.randint(-3, 3))
+    for i in range(m):
+        for j in range(n):
+            if r.random() < .75:
+                lp["A"][i].append((j, F(r.choice([-2, -1, 1, 1, 2, 3]))))
+        if not lp["A"][i]:
+            lp["A"][i].append((r.randrange(n), F(1)))
+        if r.random() < .75:
+            lp["sense"][i] = "R"; lp["rhs"][i] = F(r.randint(-4, 4)); lp["range"][i] = F(r.randint(1, 8))
+        else:
+            lp["sense"][i] = r.choice("LGE"); lp["rhs"][i] = F(r.randint(-4, 6))
+    return lp
